@@ -14,9 +14,12 @@
    sync target, oldest first.  [Finished es st' u] (Proofs/Handover_proofs.v): the record of facts
    about the state after the hand-over used below.
 
-   KNOWN FINDING (finish-fails-not-found-while-a-processing-block-has-a-rejected-parent): see
-   C21_finish_refuted.  [orphan_free es] = no processing block has a rejected parent; it is the guard
-   of the _partial theorems and excludes exactly that situation.
+   REPAIRED DEFECT (fix commit 8942b5f in /repo; former known finding
+   finish-fails-not-found-while-a-processing-block-has-a-rejected-parent): FinishStateSync used to
+   return `not found` and leave the VM not ready when it ran between the engine's Reject of a block
+   and the Reject of that block's still-processing child.  verifyProcessingBlocks now marks a block
+   whose parent is gone unresolved; such a block is not [good], so the statements below need no
+   guard for it any more (example C21_orphan_repaired).
 
    Scope of the quantification: ALL op lists that respect the engine contract, with any number of
    parses / vacuous verifies / accepts / rejects / preference changes / lookups before and after
@@ -38,7 +41,7 @@ Local Open Scope N_scope.
 Theorem C21_last_accepted_partial : forall c Q ops t st es tr,
   1 <= c_W c -> plain_ops ops = true ->
   erun c Q (init_state c) (init_estate c) ops = Some (st, es, tr) ->
-  eguard Q es (OFinishSync t) = true -> orphan_free es = true ->
+  eguard Q es (OFinishSync t) = true ->
   exists st' evs2,
     step c st (OFinishSync t) = (st', RUnit, exec_chain t (after t (e_sync es)) ++ evs2) /\
     accepts evs2 = [] /\ naccepted evs2 = [] /\
@@ -48,8 +51,8 @@ Theorem C21_last_accepted_partial : forall c Q ops t st es tr,
     step c st' OGetLastProcessed = (st', RId (e_last es), []) /\
     step c st' OLastAccepted = (st', RId (e_last es), []).
 Proof.
-  intros c Q ops t st es tr HW Hpl HR HG Hof.
-  destruct (handover_finish c Q ops t st es tr HW Hpl HR HG Hof) as (st' & u & evs2 & A & B & C & F).
+  intros c Q ops t st es tr HW Hpl HR HG.
+  destruct (handover_finish c Q ops t st es tr HW Hpl HR HG) as (st' & u & evs2 & A & B & C & F).
   destruct (finished_reads c es st' u F) as (R1 & R2 & _).
   exists st', evs2. repeat split; try assumption.
   - exact (f_ready _ _ _ F).
@@ -65,7 +68,7 @@ Print Assumptions C21_last_accepted_partial.
 Theorem C21_reverify_partial : forall c Q ops t st es tr,
   1 <= c_W c -> plain_ops ops = true ->
   erun c Q (init_state c) (init_estate c) ops = Some (st, es, tr) ->
-  eguard Q es (OFinishSync t) = true -> orphan_free es = true ->
+  eguard Q es (OFinishSync t) = true ->
   exists u, let st' := fst (fst (step c st (OFinishSync t))) in
     s_unres st' = Some u /\
     (forall b, In b u <-> hasK b (e_proc es) = true /\ ~ good es b) /\
@@ -73,8 +76,8 @@ Theorem C21_reverify_partial : forall c Q ops t st es tr,
        get_block st' b = Some (BH h) /\ o_id (obj_of st' h) = b /\
        (o_verified (obj_of st' h) = true <-> good es b)).
 Proof.
-  intros c Q ops t st es tr HW Hpl HR HG Hof.
-  destruct (handover_finish c Q ops t st es tr HW Hpl HR HG Hof) as (st' & u & evs2 & A & B & C & F).
+  intros c Q ops t st es tr HW Hpl HR HG.
+  destruct (handover_finish c Q ops t st es tr HW Hpl HR HG) as (st' & u & evs2 & A & B & C & F).
   exists u. rewrite A. cbn [fst]. split; [exact (f_unres _ _ _ F)|]. split; [exact (f_u _ _ _ F)|].
   intros b h Hb. destruct (f_procobj _ _ _ F _ _ Hb) as (X & _ & Y).
   split; [|split; assumption]. unfold get_block. rewrite (f_proc _ _ _ F), Hb. reflexivity.
@@ -91,7 +94,7 @@ Print Assumptions C21_reverify_partial.
 Theorem C21_health_partial : forall c Q ops t st es tr,
   1 <= c_W c -> plain_ops ops = true ->
   erun c Q (init_state c) (init_estate c) ops = Some (st, es, tr) ->
-  eguard Q es (OFinishSync t) = true -> orphan_free es = true ->
+  eguard Q es (OFinishSync t) = true ->
   exists u, let st' := fst (fst (step c st (OFinishSync t))) in
     (forall b, In b u <-> hasK b (e_proc es) = true /\ ~ good es b) /\
     step c st' OHealth = (st', RHealth true (Some (lenN u)) (match u with [] => true | _ => false end), []) /\
@@ -103,27 +106,17 @@ Theorem C21_health_partial : forall c Q ops t st es tr,
         step c (after_rejects c st' hs) OHealth = (after_rejects c st' hs, RHealth true (Some 0) true, []))) /\
     (forall b h, In b u -> lookup b (e_proc es) = Some h -> step c st' (OAccept h) = (st', RErr eParentFailed, [])).
 Proof.
-  intros c Q ops t st es tr HW Hpl HR HG Hof.
-  destruct (handover_finish c Q ops t st es tr HW Hpl HR HG Hof) as (st' & u & evs2 & A & B & C & F).
+  intros c Q ops t st es tr HW Hpl HR HG.
+  destruct (handover_finish c Q ops t st es tr HW Hpl HR HG) as (st' & u & evs2 & A & B & C & F).
   exists u. rewrite A. cbn [fst]. split; [exact (f_u _ _ _ F)|]. exact (handover_health c es st' u F).
 Qed.
 Print Assumptions C21_health_partial.
 
-(* KNOWN FINDING: an engine-contract-respecting history (accept block 1; reject its sibling 2;
-   FinishStateSync before the engine rejects 2's processing child 3) in which FinishStateSync fails
-   with `not found` and leaves the VM not ready although the last accepted block was already moved:
-   the property's "whenever sync finishes" is refuted without the [orphan_free] guard. *)
-Theorem C21_finish_refuted : exists c Q ops t st es tr,
-  1 <= c_W c /\ plain_ops ops = true /\
-  erun c Q (init_state c) (init_estate c) ops = Some (st, es, tr) /\
-  eguard Q es (OFinishSync t) = true /\ orphan_free es = false /\
-  snd (fst (step c st (OFinishSync t))) = RErr eNotFound /\
-  s_ready (fst (fst (step c st (OFinishSync t)))) = false.
-Proof.
-  destruct (erun kf_cfg 1 (init_state kf_cfg) (init_estate kf_cfg) kf_ops) as [[[st es] tr]|] eqn:E; [|vm_compute in E; discriminate].
-  exists kf_cfg, 1, kf_ops, 0, st, es, tr. vm_compute in E. injection E as <- <- <-. vm_compute. repeat split; discriminate.
-Qed.
-Print Assumptions C21_finish_refuted.
+(* REPAIRED DEFECT (fix commit 8942b5f in /repo, former known finding
+   finish-fails-not-found-while-a-processing-block-has-a-rejected-parent): FinishStateSync used to
+   return `not found` and leave the VM not ready when it ran between the engine's Reject of a block
+   and the Reject of that block's still-processing child (history [kf_ops] of Handover_proofs.v).
+   verifyProcessingBlocks now marks such a block unresolved. *)
 
 (* ---- non-vacuity ---- *)
 Example C21_engine_ok_example :
@@ -141,7 +134,7 @@ Example C21_partial_nonvacuous :
   plain_ops ex_ops = true /\
   match erun (mkCfg 2 2 false) 1 (init_state (mkCfg 2 2 false)) (init_estate (mkCfg 2 2 false)) ex_ops with
   | Some (st, es, _) =>
-      eguard 1 es (OFinishSync 0) = true /\ orphan_free es = true /\
+      eguard 1 es (OFinishSync 0) = true /\
       snd (fst (step (mkCfg 2 2 false) st (OFinishSync 0))) = RUnit /\
       s_unres (fst (fst (step (mkCfg 2 2 false) st (OFinishSync 0)))) = Some [2; 3]
   | None => False
@@ -154,8 +147,22 @@ Example C21_partial_nonvacuous_ready :
               OParseNew 2 true; OVerify 4] in
   plain_ops ops = true /\
   match erun c 1 (init_state c) (init_estate c) ops with
-  | Some (st, es, _) => eguard 1 es (OFinishSync 1) = true /\ orphan_free es = true /\
+  | Some (st, es, _) => eguard 1 es (OFinishSync 1) = true /\
                         snd (fst (step c st (OFinishSync 1))) = RUnit
+  | None => False
+  end.
+Proof. vm_compute. repeat split. Qed.
+
+(* the history of the repaired defect: accept block 1, reject its sibling 2, FinishStateSync while
+   2's child 3 is still processing: the hand-over succeeds and 3 is unresolved *)
+Example C21_orphan_repaired :
+  plain_ops kf_ops = true /\
+  match erun kf_cfg 1 (init_state kf_cfg) (init_estate kf_cfg) kf_ops with
+  | Some (st, es, _) =>
+      eguard 1 es (OFinishSync 0) = true /\ orphan_free es = false /\
+      snd (fst (step kf_cfg st (OFinishSync 0))) = RUnit /\
+      s_unres (fst (fst (step kf_cfg st (OFinishSync 0)))) = Some [3] /\
+      s_ready (fst (fst (step kf_cfg st (OFinishSync 0)))) = true
   | None => False
   end.
 Proof. vm_compute. repeat split. Qed.
